@@ -127,6 +127,9 @@ FOREIGN = {
     "pair_hist": lambda: (_h1(), {"histogram": {"dim": 1}}),
     "hist_float_bins": lambda: (histogram([0, 1, 2], [1.5, 2.5]), {"a": 1}),
     "hist_no_graph": lambda: (_h1(), {"histogram": {"to_graph": False}}),
+    # bins hold compound data (MapBins documents select_bins=[vector3, list] for such histograms):
+    # a one-dimensional histogram of lists is not a histogram of numbers
+    "hist_list_bins": lambda: (histogram([0, 1, 2], [[1, 2], [3, 4]]), {"a": 3}),
     # not selected (to_graph False) although its bins are (data, context) pairs with a variable
     "hist_pairbins_no_graph": lambda: (histogram([0, 1, 2], [(1, {"variable": {"name": "n", "k": [1]}}),
                                                              (2, {"variable": {"name": "n", "k": [2]}})]),
@@ -186,11 +189,11 @@ def b_pool(kind, cfg):
         elif cfg == "ctxsel":   # bins selected by a key in the bin context
             extra = ["str", "graph", "hist_bins_not_sel", "hist", "pair_hist", "hist_float_bins"]
         else:  # int bins selected
-            extra = ["str", "graph", "pair_graph", "hist_float_bins", "str_csv", "nested_pair"]
+            extra = ["str", "graph", "pair_graph", "hist_float_bins", "hist_list_bins", "nested_pair"]
         drop = ["float", "tuple2", "list"]
     elif kind == "IterateBins":
         if cfg == "int":
-            extra = ["str", "graph", "pair_graph", "hist_float_bins", "str_csv", "nested_pair"]
+            extra = ["str", "graph", "pair_graph", "hist_float_bins", "hist_list_bins", "nested_pair"]
         else:
             extra = ["str", "graph", "pair_graph", "hist", "pair_hist", "hist_float_bins"]
         drop = ["float", "tuple2", "list"]
